@@ -269,6 +269,16 @@ pub fn run(ctx: &mut Ctx) {
                 texts.push((format!("gap/{}", mname), sp.text));
             }
         }
+        // long lines and many lines (line and column counters have a width)
+        if d.name == corpus::docs()[0].name {
+            for len in [250usize, 254, 255, 256, 257, 65533, 65534, 65535, 65536, 65537, 70000] {
+                let pad = "x".repeat(len);
+                let sp = spell_with(lx, &format!("(* {} *) ", pad), "\n", &|_, g| if g == Glue::Blank { " ".into() } else { String::new() });
+                texts.push(("long-first-line".to_string(), sp.text));
+                let sp = spell_with(lx, &"\n".repeat(len), "\n", &|_, g| if g == Glue::Blank { " ".into() } else { String::new() });
+                texts.push(("many-leading-lines".to_string(), sp.text));
+            }
+        }
         // invalid characters
         for bad in ["?", "\u{e9}", "$", "\u{1F600}", "\u{0}"] {
             for pos in [0usize, lx.len() / 3, lx.len() - 2] {
